@@ -374,7 +374,8 @@ def run_mean(ctx):
     elif wk == 'descriptor':
         arg, w = 'w', np.tile(wdesc[:, None], (1, a.shape[1]))
     else:
-        arg, w = warr.copy(), warr
+        # per-entry weights as a C-ordered or a column-major array (np.tile(w, (n_pairs, 1)).T is column-major)
+        arg, w = (np.asfortranarray(warr) if rng.integers(2) else warr.copy()), warr
     ok, out = ctx.guarded('mean', sig, rd.mean, arg, data=wit)
     if not ok:
         return
